@@ -74,6 +74,9 @@ var (
 
 // GenTrackerStatus: mostly single statuses; undefined, named composites, filters; rarely the unused bit 0.
 func GenTrackerStatus(r *common.Rng) api.TrackerStatus {
+	if NamedStatusOnly {
+		return append(trackerSingles, api.TrackerStatusUndefined, api.TrackerStatusError, api.TrackerStatusQueued)[r.Intn(len(trackerSingles)+3)]
+	}
 	switch x := r.Intn(20); {
 	case x < 12:
 		return trackerSingles[r.Intn(len(trackerSingles))]
@@ -95,6 +98,10 @@ func GenTrackerStatus(r *common.Rng) api.TrackerStatus {
 		return api.TrackerStatus(1) | trackerSingles[r.Intn(len(trackerSingles))]*api.TrackerStatus(r.Intn(2))
 	}
 }
+
+// NamedStatusOnly restricts tracker statuses to the named ones, whose String() is one fixed word
+// (a filter's String() lists names in random map order; the fuzz suite needs byte-identical seeds).
+var NamedStatusOnly bool
 
 // Clean makes the generator stay inside the well-formed value space (used where one case holds many pins).
 var Clean bool
@@ -342,4 +349,52 @@ func genInto(r *common.Rng, v reflect.Value, name string, depth int) {
 	default:
 		panic("gen: unsupported kind " + t.String())
 	}
+}
+
+// TrimMaps keeps only the smallest key of every map inside v: the encoders write
+// maps in Go's random iteration order, and the fuzz suite needs byte-identical seed encodings.
+func TrimMaps(v reflect.Value) {
+	switch v.Kind() {
+	case reflect.Ptr:
+		if !v.IsNil() {
+			TrimMaps(v.Elem())
+		}
+	case reflect.Struct:
+		if IsLeaf(v.Type()) {
+			return
+		}
+		for i := 0; i < v.NumField(); i++ {
+			if v.Type().Field(i).PkgPath == "" {
+				TrimMaps(v.Field(i))
+			}
+		}
+	case reflect.Slice:
+		if IsLeaf(v.Type()) {
+			return
+		}
+		if v.Type().Elem() == reflect.TypeOf(api.Pin{}) && v.Len() > 1 { // a state dump lists its pins in datastore order
+			v.Set(v.Slice(0, 1))
+		}
+		for i := 0; i < v.Len(); i++ {
+			TrimMaps(v.Index(i))
+		}
+	case reflect.Map:
+		keys := sortedKeys(v)
+		for _, k := range keys[minInt(1, len(keys)):] {
+			v.SetMapIndex(reflect.ValueOf(k).Convert(v.Type().Key()), reflect.Value{})
+		}
+		for _, k := range v.MapKeys() {
+			e := v.MapIndex(k)
+			if e.Kind() == reflect.Ptr {
+				TrimMaps(e)
+			}
+		}
+	}
+}
+
+func minInt(a, b int) int {
+	if a < b {
+		return a
+	}
+	return b
 }
